@@ -803,6 +803,28 @@ fn gen_header_items(r: &mut Rng) -> (Vec<(u32, Val)>, Vec<(u32, Val)>) {
         if r.chance(1, 2) {
             let n = r.usize(4);
             let mut t = vec![(a, strs_n(r, n)), (b, right(r, 4, n)), (c, strs_n(r, n))];
+            // repeated entries (the same triple several times in a row, as generators emit them):
+            // a list is zipped item by item, nothing is merged
+            if n >= 1 && r.chance(1, 3) {
+                let reps = 1 + r.usize(3);
+                for (_, v) in t.iter_mut() {
+                    match v {
+                        Val::StrArray(x) => {
+                            let first = x[0].clone();
+                            for _ in 0..reps {
+                                x.insert(0, first.clone());
+                            }
+                        }
+                        Val::Int32(x) => {
+                            let first = x[0];
+                            for _ in 0..reps {
+                                x.insert(0, first);
+                            }
+                        }
+                        _ => {}
+                    }
+                }
+            }
             perturb(r, &mut t);
             items.extend(t);
         }
@@ -860,6 +882,15 @@ pub fn gen_package(r: &mut Rng) -> Vec<u8> {
 }
 
 fn run(ctx: &Ctx, rep: &Report) {
+    // what an accessor returns is a function of the header bytes, not of the caller's locale: the
+    // whole check runs under an environment that names locales the generated locale tables contain
+    // (set once, before any worker thread exists)
+    let locale = [("de_DE.UTF-8", "fr:de"), ("fr_FR.UTF-8", "ja:fr"), ("ja_JP.UTF-8", "de"), ("C", "")][(ctx.seed % 4) as usize];
+    for k in ["LANG", "LC_ALL", "LC_MESSAGES"] {
+        std::env::set_var(k, locale.0);
+    }
+    std::env::set_var("LANGUAGE", locale.1);
+    rep.note(format!("environment of this run: LANG=LC_ALL=LC_MESSAGES={} LANGUAGE={:?}", locale.0, locale.1));
     // assets first: rich real data
     for rel in ASSETS {
         let Ok(bytes) = std::fs::read(ctx.asset(rel)) else { continue };
